@@ -266,6 +266,32 @@ func expand(c Case) Case {
 			}
 			b.WriteString(` src py "s",)`)
 			c.Input = b.String()
+		case "wide-array-line":
+			c.Input = "[" + strings.Repeat("1,", n) + "1]"
+		case "wide-array-lines":
+			c.Input = "[\n" + strings.Repeat("1,\n", n) + "1]"
+		case "wide-map-line":
+			var b strings.Builder
+			b.WriteString("{")
+			for i := 0; i < n; i++ {
+				fmt.Fprintf(&b, `"k%d":%d,`, i, i)
+			}
+			b.WriteString(`"z":0}`)
+			c.Input = b.String()
+		case "many-stages":
+			var b strings.Builder
+			for i := 0; i < n; i++ {
+				fmt.Fprintf(&b, "stage S%d(in int x, out int y, src py \"s\",)\n", i)
+			}
+			c.Input = b.String()
+		case "many-stages-line":
+			var b strings.Builder
+			for i := 0; i < n; i++ {
+				fmt.Fprintf(&b, "stage S%d(in int x, out int y, src py \"s\",) ", i)
+			}
+			c.Input = b.String()
+		case "call-wide-array":
+			c.Input = "pipeline P(in int[] x, out int y,){ return (y = 1,) }\ncall P(x = [" + strings.Repeat("1,", n) + "1],)"
 		case "struct-chain":
 			var b strings.Builder
 			for i := 0; i < n; i++ {
@@ -373,7 +399,7 @@ func main() {
 		}
 		r.Rule = fmt.Sprintf("(A1) every token sequence of length <=%d over an %d-token alphabet (keywords, punctuation, numeric edge literals around 64-bit limits, every string escape form, invalid UTF-8) through ParseSourceBytes, UncheckedParse, ParseValExp and FormatSrcBytes; "+
 			"(A2) for every .mro file of the repository's fixtures: every single-token deletion, duplication, every byte-prefix truncation (step 7 bytes in quick), every replacement of a token by each alphabet token (files <= 3 KB); "+
-			"(A3) every string slot x {empty, blank, quote, backslash, newline, NUL} and numeric slot x edge list; (A4) nesting / size series 10..10^5 in isolated subprocesses; (A5) include graphs (self, 2- and 3-cycles with and without declarations, diamond, missing, nested dirs); (A6) call structure through what mro check does (compile, then the call graph of the top-level call): cycles of 1-3 pipelines with and without inputs and top-level call, and every top-level call form {call, map call, local, preflight, volatile} x callee {stage, pipeline, undefined, a struct} x 13 binding forms (wildcards, self and call references, splits, duplicates, unknown and missing parameters) and modifiers. "+
+			"(A3) every string slot x {empty, blank, quote, backslash, newline, NUL} and numeric slot x edge list; (A4) nesting / size series 10..10^5 in isolated subprocesses; (A7) growth: ten wide input shapes (array / map literal on one line and one element per line, thousands of stages on one line and on separate lines, comments, a long string, many parameters) parsed at size n and 4n - the larger may take at most 12 times as long (best of 3-5 runs each; only judged when it needs more than three seconds); (A5) include graphs (self, 2- and 3-cycles with and without declarations, diamond, missing, nested dirs); (A6) call structure through what mro check does (compile, then the call graph of the top-level call): cycles of 1-3 pipelines with and without inputs and top-level call, and every top-level call form {call, map call, local, preflight, volatile} x callee {stage, pipeline, undefined, a struct} x 13 binding forms (wildcards, self and call references, splits, duplicates, unknown and missing parameters) and modifiers. "+
 			"violation = panic, process death, no result in 90 s, or an error without a source position. distinct = distinct (entry point, input); non-trivial = input is not accepted", maxLen, len(alphabet))
 		r.Set("alphabet", len(alphabet))
 		r.RunWorkers(0)
@@ -562,6 +588,56 @@ call P(m = [%s, 1],)`,
 		if mine() {
 			do(Case{Entry: "valexp", Input: `"` + s + `"`})
 			do(Case{Entry: "valexp", Input: `{"` + s + `": 1}`})
+		}
+	}
+	// A7 growth: time must stay in proportion to the input size.  Wide (not
+	// deep) inputs are parsed at size n and 4n; the oracle is relative - the
+	// larger input may take at most 9 times as long as the smaller one (4x is
+	// linear; best of several runs of each) - and only applies when the
+	// larger input, a few hundred KB, needs more than three seconds (it takes a fraction of a second on the unchanged tree).
+	for _, g := range []struct {
+		gen, entry string
+		n          int
+	}{{"wide-array-line", "valexp", 30000}, {"wide-array-lines", "valexp", 30000}, {"wide-map-line", "valexp", 10000},
+		{"many-stages", "unchecked", 3000}, {"many-stages-line", "unchecked", 3000}, {"many-stages", "format", 2000},
+		{"call-wide-array", "source", 20000}, {"comment-lines", "unchecked", 30000}, {"long-string", "unchecked", 100000},
+		{"many-params", "unchecked", 5000}} {
+		if !mine() {
+			continue
+		}
+		timeOf := func(n, tries int) time.Duration {
+			c := expand(Case{Entry: g.entry, Gen: fmt.Sprintf("%s:%d", g.gen, n)})
+			best := time.Duration(1<<62 - 1)
+			for i := 0; i < tries; i++ {
+				t0 := time.Now()
+				run(c)
+				if d := time.Since(t0); d < best {
+					best = d
+				}
+				if best > 20*time.Second {
+					break
+				}
+			}
+			return best
+		}
+		small, large := timeOf(g.n, 3), timeOf(4*g.n, 3)
+		r.Eval("growth|" + g.gen + "|" + g.entry)
+		ratio := float64(large) / float64(small+1)
+		if large > 3*time.Second && ratio > 12 {
+			// believe it only if it persists
+			small, large = timeOf(g.n, 5), timeOf(4*g.n, 5)
+			ratio = float64(large) / float64(small+1)
+		}
+		if large > 3*time.Second && ratio > 12 {
+			r.Outcome("growth:superlinear")
+			r.Report(ev.Finding{Sig: "C08:superlinear:" + g.entry + ":" + g.gen,
+				What: fmt.Sprintf("%s needs %.2fs for %s of size %d but %.2fs for size %d: %.1f times as long for 4 times the input", g.entry, large.Seconds(), g.gen, 4*g.n, small.Seconds(), g.n, ratio),
+				Case: Case{Entry: g.entry, Gen: fmt.Sprintf("%s:%d", g.gen, 4*g.n)}})
+		} else {
+			r.Outcome("growth:proportional")
+			if os.Getenv("VERIF_DEBUG") != "" {
+				fmt.Fprintf(os.Stderr, "growth %s/%s: %.3fs -> %.3fs (x%.1f)\n", g.gen, g.entry, small.Seconds(), large.Seconds(), ratio)
+			}
 		}
 	}
 	// A4 nesting (isolated subprocesses)
